@@ -205,6 +205,13 @@ pub fn tok16(kind: u8, a: u32, c: u8, out: &mut Vec<u16>) {
 pub fn mem_case(f: MemFn, max_tokens: usize) -> impl Strategy<Value = MemCase> {
     let raw = (proptest::collection::vec((any::<u8>(), any::<u32>(), any::<u8>()), 0..=max_tokens), any::<u32>(), any::<u8>(), any::<u8>(), any::<u8>());
     raw.prop_map(move |(toks, dx, sa, da, fill)| {
+        // one case in 16 is long: the token list repeated 4..=35 times with varied parameters
+        let toks: Vec<(u8, u32, u8)> = if (sa >> 4) == 3 && !toks.is_empty() {
+            let reps = 4 + (dx >> 27) as usize;
+            (0..reps).flat_map(|i| toks.iter().map(move |&(k, a, c)| (k, a.wrapping_add((i as u32).wrapping_mul(0x9E37_79B9)), c))).collect()
+        } else {
+            toks
+        };
         let mut src8 = Vec::new();
         let mut src16 = Vec::new();
         match f.src_kind() {
